@@ -132,7 +132,7 @@ func (g *G) Weighted(ws ...int) int {
 var (
 	asciiWords = []string{"", "a", "b", "abc", "hello world", "x y", "Zed", "0", "42", "true", "null", "a-b_c", "end."}
 	htmlWords  = []string{"<", ">", "&", "\"", "'", "<b>", "a&b", "</script>", "&amp;", "&lt;", "x<y>z", "it's", "\"q\"", "<a href='x'>"}
-	uniWords   = []string{"é", "日本", "ü ö", "π≈3", "𝄞", "a b", " ", "naïve"}
+	uniWords   = []string{"é", "日本", "ü ö", "π≈3", "𝄞", "a b", " ", "naïve", "上", "不三", "a†b", "č", "x\u2009y", "Ġ", "😀x"}
 	ctlWords   = []string{"a\nb", "a\tb", "\r\n", "x\\y", "back\\slash", "tab\t", "C:\\", "\\", "end\\\\", "'\\", "\\'"}
 )
 
@@ -435,6 +435,8 @@ func (g *G) literal(t *Ty) *Expr {
 	case "str":
 		if g.Chance(15) {
 			e.Esc = 1
+		} else if g.Chance(10) {
+			e.Esc = 2
 		}
 	}
 	return e
